@@ -198,7 +198,8 @@ def check_raising_listener(prog, info, x, driver, part, record=True):
     """A listener that raises on a begin event (#enter, #loop_v): the exception passes through the
     activation like any other, so the brackets still close (#endloop, #error, #exit)."""
     names = set(info["params"] + info["locals"]) - set(info["declared"])
-    for begin in ["#enter"] + [f"#loop_{lv}" for lv in info["loopvars"]]:
+    # (the order of the brackets of a loop with several targets is not asserted: single-target loops only)
+    for begin in ["#enter"] + ([f"#loop_{lv}" for lv in info["loopvars"]] if len(info["loopvars"]) == 1 else []):
         tw = C.get_world(prog, info, "twin")
         state = {"done": False}
 
